@@ -4,17 +4,18 @@ import (
 	"context"
 	"fmt"
 	"math/big"
+	"os"
 	"sort"
 	"sync"
 	"testing"
 	"testing/synctest"
 	"time"
 
-	"github.com/aliyun/alibaba-cloud-sdk-go/services/vpc"
 	sdkErr "github.com/aliyun/alibaba-cloud-sdk-go/sdk/errors"
+	"github.com/aliyun/alibaba-cloud-sdk-go/services/vpc"
 	corev1 "k8s.io/api/core/v1"
-	"k8s.io/apimachinery/pkg/api/resource"
 	k8sErr "k8s.io/apimachinery/pkg/api/errors"
+	"k8s.io/apimachinery/pkg/api/resource"
 	metav1 "k8s.io/apimachinery/pkg/apis/meta/v1"
 	"k8s.io/apimachinery/pkg/runtime/schema"
 	k8stypes "k8s.io/apimachinery/pkg/types"
@@ -37,22 +38,22 @@ import (
 // ---- simulated cloud -------------------------------------------------------------------------------
 
 type cEni struct {
-	id         int
-	status     string // Available | InUse
-	trunk, hp  bool
-	v4, v6     []int // v4[0] is the primary address
+	id        int
+	status    string // Available | InUse
+	trunk, hp bool
+	v4, v6    []int // v4[0] is the primary address
 }
 
 // call kinds in the log
 const (
-	cCreate = 1
-	cAttach = 2
+	cCreate  = 1
+	cAttach  = 2
 	cAssign4 = 3
 	cAssign6 = 4
-	cUn4 = 5
-	cUn6 = 6
-	cDetach = 7
-	cDelete = 8
+	cUn4     = 5
+	cUn6     = 6
+	cDetach  = 7
+	cDelete  = 8
 )
 
 type fakeCloud struct {
@@ -61,8 +62,8 @@ type fakeCloud struct {
 	enis     map[int]*cEni
 	nextENI  int
 	nextAddr int
-	calls    [][]int         // kind eni n ok nips ips..  (ok: 0 no effect, 1 effect + success, 2 effect but failure reported)
-	faults   map[int][]int   // call kind -> outcomes for the next calls (0 ok 1 error before effect 2 error after effect 3 quota code)
+	calls    [][]int       // kind eni n ok nips ips..  (ok: 0 no effect, 1 effect + success, 2 effect but failure reported)
+	faults   map[int][]int // call kind -> outcomes for the next calls (0 ok 1 error before effect 2 error after effect 3 quota code)
 }
 
 // snapshot: n (eni inuse v4list v6list)*; the caller holds the lock
@@ -621,6 +622,9 @@ func genHistory(r *hx.Rand) []*big.Int {
 		on4, on6 = false, true
 	}
 	rdma := r.Chance(1, 6)
+	if os.Getenv("VERIF_PROP") == "C02" {
+		rdma = r.Chance(1, 3) // more ERDMA nodes: the kind filter of the binding pass
+	}
 	per := 2 + r.Intn(5)
 	flSec, flTrunk, flRdma := 1+r.Intn(3), 0, 0
 	trunk := r.Chance(1, 5)
@@ -638,6 +642,22 @@ func genHistory(r *hx.Rand) []*big.Int {
 	gen := map[int]int{}
 	alive := map[int]bool{}
 	n := 8 + r.Intn(25)
+	if rdma && r.Chance(1, 2) {
+		// an ERDMA node on which the RDMA interface holds an idle address (its pod has gone, teardown reported) while an ordinary
+		// pod asks for addresses in a round whose cloud calls fail: the idle RDMA address is not for that pod
+		q := npods + 2
+		recs = append(recs, []int{1, q, q*10 + 1, 1, 0, 0}, []int{4, 0}, []int{4, 0}, []int{2, q}, []int{3, q*10 + 1, 2}, []int{4, 0})
+		p := 1 + r.Intn(npods)
+		gen[p]++
+		recs = append(recs, []int{1, p, p*10 + gen[p], 0, 0, 0})
+		alive[p] = true
+		if r.Chance(1, 2) {
+			recs = append(recs, []int{4, 3, 1, 3, 3, 3, 4, 3})
+		} else {
+			recs = append(recs, []int{4, 3, 1, 1, 3, 1, 4, 1})
+		}
+		recs = append(recs, []int{4, 0})
+	}
 	for i := 0; i < n; i++ {
 		x := r.Intn(100)
 		p := 1 + r.Intn(npods)
